@@ -23,7 +23,7 @@ RULE = ('one case = one history of 6-24 operations over a universe of 9 related 
         'something and one add after a removal')
 ASSUMPTIONS = ['the shared ILI inventory and cross-lexicon order are excluded as the statement says',
                'bare-id specifiers are only used while one version of that id is installed (C08 owns ambiguity)']
-FLOORS = {'*': {'op.add': 100, 'op.remove': 50, 'audit.run': 200, 'fresh.compared': 20}}
+FLOORS = {'*': {'op.add': 100, 'op.remove': 50, 'op.failing-add': 20, 'audit.run': 200, 'fresh.compared': 20}}
 N = {'quick': 200, 'thorough': 4000}
 QUIRKS = {'tags-unowned': 'extension-form-tags-residue', 'ext-forms': 'unselected-extension-forms', 'nav-by-id': 'sense-nav-by-id'}
 
@@ -84,6 +84,25 @@ def run_case(case, rec):
                     env.close_pool()
                     ops.append(['reconnect'])
                     rec.event('op.reconnect')
+                if r.random() < 0.08:
+                    # an add that fails half-way (the caller's progress handler raises): by C06 it changes nothing, and the
+                    # history goes on from the same content
+                    from vf.monitors import faults
+                    name = r.choice(list(files))
+                    counter = faults.new_counter()
+                    counter.fail_at = r.randint(1, 40)
+                    ops.append(['failing-add', name, counter.fail_at])
+                    try:
+                        wn.add(paths[name], progress_handler=faults.make_faulty_progress(counter))
+                    except faults.InjectedFault:
+                        pass
+                    exc_free = not counter.fired
+                    if exc_free:
+                        # the add needed fewer callbacks than that: it completed (or skipped everything) normally
+                        m.add_like_real(resources[name], [lx.specifier() for lx in wn.lexicons()])
+                        ops[-1][0] = 'add'
+                    else:
+                        rec.event('op.failing-add')
                 if x < 0.55 or not installed:
                     name = r.choice(list(files))
                     route = r.choice(['file', 'file', 'memory'])
